@@ -91,6 +91,9 @@ int main(int argc, char** argv)
 		E("faceforward / refract decisions", { vec3 nn = normalize(c3 + vec3(0.1f, 0.2f, 3.f)); vec3 ii = normalize(a3 + vec3(0.3f, 0.1f, -2.f)); float eta = (i % 2) ? 0.6f : 1.6f; vec3 r = refract(ii, nn, eta); vec4 r4 = refract(vec4(ii, 0.f), vec4(nn, 0.f), eta); double dd = (double)dot(nn, ii), kk = 1.0 - (double)eta * eta * (1.0 - dd * dd); if (std::fabs(kk) > 1e-5) std::printf(" tir=%d%d", (int)(r == vec3(0.f)), (int)(r4 == vec4(0.f))); else std::printf(" tir=xx"); vec3 ff = faceforward(a3, b3, c3); std::printf(" ff=%d%d", (int)(ff == a3), (int)(ff == -a3)); vec4 f4 = faceforward(a, b, c); std::printf(" ff4=%d%d", (int)(f4 == a), (int)(f4 == -a)); vec4 cz(b.y, -b.x, 0.f, 0.f); vec4 f0 = faceforward(a + vec4(1.f), b, cz); pv(f0); vec4 fn = faceforward(a + vec4(1.f), b, -b); pv(fn); })
 		{ dvec4 da(a), db(b); db += dvec4(0.125); dvec3 da3(a3), db3(b3);
 		E("dvec4 + - * /", pvd(da + db); pvd(da - db); pvd(da * db); pvd(da / (db + dvec4(1000.0))); pvd(da * 3.0); pvd(-da); pvd(da3 + db3); pvd(da3 * db3); std::printf(" %d %d", (int)(da == db), (int)(da != db)))
+		{ dmat4 DM(M), DN(N); dmat3 DM3(DM), DN3(DN); double sc2 = 4 * (sm * sm) * 16 + 1;
+		  A("dmat products (splatX..W)", 1.0, { dmat4 P = DM * DN; for (int k = 0; k < 4; ++k) pv(vec4(P[k] / sc2)); dmat3 P3 = DM3 * DN3; for (int k = 0; k < 3; ++k) pv(vec3(P3[k] / sc2)); pv(vec4((DM * da) / sc2)); pv(vec3((DM3 * da3) / sc2)); })
+		  E("dvec4 splat", pvd(splatX(da)); pvd(splatY(da)); pvd(splatZ(da)); pvd(splatW(da))) }
 		E("dvec4 functions", pvd(abs(da)); pvd(floor(da)); pvd(ceil(da)); pvd(min(da, db)); pvd(max(da, db)); pvd(sqrt(abs(da))); pvd(mix(da, db, bvec4(true, false, a.x > 0, b.x > 0))))
 		{ dquat dq = dquat::wxyz(a.x, a.y, a.z, a.w), dp = dquat::wxyz(b.x, b.y, b.z, b.w); dquat r1 = dq + dp, r2 = dq - dp, r3 = dq, r4 = dq; r3 *= 3.0; r4 /= 4.0; E("dquat + - * /", pd(r1.w); pd(r1.x); pd(r1.y); pd(r1.z); pd(r2.w); pd(r2.x); pd(r2.y); pd(r2.z); pd(r3.w); pd(r3.x); pd(r3.y); pd(r3.z); pd(r4.w); pd(r4.x); pd(r4.y); pd(r4.z)) }
 		A("dvec4 multi-term", 1.0, pf((float)(dot(da, db) / (4 * sm * sm + 1))); pf((float)(length(da) / (2 * sa + 1))); pv(vec4(fma(da, db, dvec4(c)) / (2 * (sa * sb + sc) + 1))); pv(vec3(cross(da3, db3) / (2 * sa * sb + 1)))) }
